@@ -1266,7 +1266,7 @@ def mon_c11(im0, p):
                 if type(tgt) is list:
                     tgt.append(evalimpl.Reader(ns, host).val(evalimpl.sread(call[3])[0]))
                 continue
-            closure_in_names = call[0] == 'eval' and call[2] != 'none' and _has_function({k: v for k, v in maps[call[2]].items() if k not in host.fns})
+            closure_in_names = call[0] == 'eval' and call[2] != 'none' and _has_function({k: v for k, v in maps[call[2]].items() if k not in host.fns and not any(v is hv for hv in host.fns.values())})
             maps_copy = copy.deepcopy(maps)
             got = _do_call(im, host, call, maps)
             fresh = sqimpl.Impl(ns)
